@@ -47,6 +47,7 @@ def ops_of(recs):
 
 class C10(S4UCheck):
     pid = 'C10'
+    level = 'fault_enumeration'
     rule = ('seeded communicating programs (3-5 actors on 3-4 hosts with private and shared links: rendezvous put/get on '
             'one mailbox per ordered actor pair, put_async/get_async + wait, detached puts, host-to-host sendto, local and '
             'remote execs, exec_async + wait, sleeps, on_exit callbacks). The program first runs fault free; the set of '
